@@ -7,6 +7,9 @@ from .check_core import mc_states, LABS
 from .runner import Check
 
 
+IOLABS = ["int", "int_rev", "neg", "big", "str"]
+
+
 def _decorate(g, L, known, rng, lines, grid):
     """isolated node, node attributes (incl. nested mutable values), graph attribute"""
     extra = []
@@ -48,6 +51,20 @@ def job_derive(job):
             (f, t), (f2, t2) = rng.choice(wins), rng.choice(wins)
             lines.append(derive.derive_line(g, L, known2, grid, "time_slice2", {"f": f, "g": t, "f2": f2, "g2": t2},
                                             rng=rng, with_battery=False))
+    elif prop in ("C09", "C10", "C11"):
+        kind = {"C09": "snapshots", "C10": "interactions", "C11": "json"}[prop]
+        ncfg = 2 if tier == "quick" else 6
+        for _ in range(ncfg):
+            if kind == "json":
+                drop = rng.random() < 0.3
+                # without the key the argument decides; reading *directed* data as undirected is outside the
+                # property (the link order of the two directions need not be chronological for the merged pair)
+                cfg = {"idkey": rng.choice(["id", "id", "name"]), "dropkey": drop,
+                       "argdir": (True if directed else rng.random() < 0.5) if drop else rng.random() < 0.5}
+            else:
+                cfg = {"delim": rng.choice([" ", ",", "\t", ";"]), "enc": rng.choice(["utf-8", "latin-1", "utf-16"]) if False else rng.choice(["utf-8", "latin-1"]),
+                       "target": rng.choice(["plain", "gz", "bz2", "fileobj"])}
+            lines.append(derive.io_line(g, L, known2, grid, kind, cfg, rng=rng, with_battery=(rng.random() < 0.3)))
     else:
         if directed:
             lines.append(derive.derive_line(g, L, known2, grid, "to_undirected", {"recip": False}, rng=rng, mutate=True))
@@ -73,13 +90,15 @@ def run(prop, tier, seed):
             states = rng.sample(states, min(len(states), 130))
         for i, st in enumerate(states):
             nst += 1
-            jobs.append((rng.randrange(1 << 30), prop, st["dir"], st["hist"], LABS[(i + seed) % len(LABS)], known, grid, tier))
+            labs = IOLABS if prop in ("C09", "C10", "C11") else LABS
+            jobs.append((rng.randrange(1 << 30), prop, st["dir"], st["hist"], labs[(i + seed) % len(labs)], known, grid, tier))
     nrand = 60 if tier == "quick" else 1500
     for i in range(nrand):
         nn = rng.choice([2, 3, 4, 5])
         tmax = rng.choice([3, 5, 8])
         calls = drivers.rand_history(rng, nn, tmax, rng.randint(2, 14))
-        jobs.append((rng.randrange(1 << 30), prop, rng.random() < 0.5, calls, rng.choice(LABS),
+        jobs.append((rng.randrange(1 << 30), prop, rng.random() < 0.5, calls,
+                     rng.choice(IOLABS if prop in ("C09", "C10", "C11") else LABS),
                      drivers.known_of(calls), drivers.grid_of(calls), tier))
     chk.run_jobs(job_derive, jobs, "der", chunk=200)
     chk.extra["bounded_states_replayed"] = nst
@@ -92,6 +111,11 @@ def run(prop, tier, seed):
     ]
     what = {"C06": "every window f<=t over the observation grid (thorough; 5 sampled windows in the quick tier), t_to omitted, "
                    "t_to<t_from, the functional wrapper, and slices of slices for sampled window pairs",
+            "C09": "write_snapshots to a plain / .gz / .bz2 path or an open binary file with delimiter in {' ', ',', tab, ';'} and "
+                   "encoding in {utf-8, latin-1}; the bytes are tokenised strictly by the harness; read_snapshots with matching parameters",
+            "C10": "write_interactions / read_interactions with the same targets, delimiters and encodings",
+            "C11": "node_link_data -> json.dumps -> json.loads -> node_link_graph, default and custom attrs['id'], with and without the "
+                   "'directed' key in the data and both values of the directed argument; node attributes incl. nested lists/dicts, graph attributes",
             "C16": "to_directed on undirected states, to_undirected with reciprocal False/True on directed states, followed by a "
                    "mutation of the result (node attribute values incl. nested lists/dicts, graph attributes, a new interaction) and "
                    "a re-observation of the source"}[prop]
